@@ -15,6 +15,12 @@
 //                                         harness' own shadow bookkeeping finds valid is executed for real
 //                                         (ASan + LeakSanitizer) and every apply/solve/report is compared with a C++
 //                                         reference object; an invalid one is executed up to the offending call
+//   capi_params <call>*                  CONTENT of parameter handles after a history of amgcl_params_create / seti / setf /
+//                                         sets / read_json / destroy calls (same path written repeatedly, file values
+//                                         overridden by setters, a file replacing earlier content, several handles): the tree
+//                                         read back from the real handle; oracle after every call: every written path reads
+//                                         back the LAST value written to it, no duplicate sibling keys, tree == boost ptree
+//                                         filled with the same put() sequence
 // Implementation-vs-implementation ops (harness entry h_capi_x, -DCAPI_IMPL_ONLY, "no_model"):
 //   capi_solve nt β K (key i|f|s value)^K  A  hasA2 [A2]  rhs  x0
 //       C handle API (params through typed setters AND through amgcl_params_read_json AND, when K = 0, NULL),
@@ -25,6 +31,10 @@
 //       reported as unknown -- all compared BITWISE / textually.
 //       Data: dyadic rationals (exact in binary64; checked, else bad-input).  Result line: iteration counts, residual
 //       bit patterns, FNV hashes of the solution bit patterns (no floats, no addresses).
+//   capi_hist nt A rhs x0 <event>*        parameter-handle HISTORIES executed for real (see do_hist): new / set / json / pdel on
+//       parameter handles interleaved with mk (all four create entry points, or NULL parameters), use, odel of solver and
+//       preconditioner objects; the handle tree is checked after every write as in capi_params, every object is compared with
+//       the C++ classes configured from a ptree filled with the same put() sequence, every _f entry point with its twin.
 #include <vector>
 #include <string>
 // unknown-parameter warnings of amgcl are recorded instead of printed (compared between the two sides)
@@ -146,6 +156,133 @@ template <class S, class Tup> static SolveOut ref_solve(const S &s, const Tup *A
     o.it = (int)it; o.res = res; return o;
 }
 static bool same(const SolveOut &a, const SolveOut &b) { return a.it == b.it && bits(a.res) == bits(b.res) && same_bits(a.x, b.x); }
+
+// ---------------------------------------------------------------- parameter lists, JSON text (shared by all parameter ops)
+struct PEnt { std::string key; char type; int i = 0; float f = 0; std::string s; };
+
+static void ref_put(PT &pt, const PEnt &e, const std::string &key) {
+    if (e.type == 'i') pt.put(key, e.i); else if (e.type == 'f') pt.put(key, e.f); else pt.put(key, e.s);
+}
+static std::string value_text(const PEnt &e) { PT t; ref_put(t, e, "v"); return t.get<std::string>("v"); }
+// JSON text of a parameter list (nested objects from dotted keys; numbers unquoted, strings quoted)
+struct JNode { bool leaf = false; std::string text; std::vector<std::pair<std::string, JNode>> kids;
+    JNode& kid(const std::string &k) { for (auto &p : kids) if (p.first == k) return p.second; kids.push_back({k, JNode()}); return kids.back().second; } };
+static void jemit(std::ostream &os, const JNode &nd) {
+    if (nd.leaf) { os << nd.text; return; }
+    os << "{"; bool first = true;
+    for (auto &p : nd.kids) { if (!first) os << ", "; first = false; os << '"' << p.first << "\": "; jemit(os, p.second); }
+    os << "}";
+}
+static std::string json_of(const std::vector<PEnt> &ps, const std::string &strip) {
+    JNode root;
+    for (auto &e : ps) {
+        if (e.key.compare(0, strip.size(), strip) != 0) continue;
+        std::string key = e.key.substr(strip.size()); JNode *nd = &root; size_t pos = 0;
+        for (;;) { size_t d = key.find('.', pos); nd = &nd->kid(key.substr(pos, d == std::string::npos ? d : d - pos)); if (d == std::string::npos) break; pos = d + 1; }
+        nd->leaf = true; nd->text = e.type == 's' ? "\"" + e.s + "\"" : value_text(e);
+    }
+    std::ostringstream os; jemit(os, root); os << "\n"; return os.str();
+}
+static std::string json_file(const std::string &text) {
+    std::string f = g_outdir + "/capi_params_" + std::to_string((long)getpid()) + ".json";
+    std::ofstream o(f); o << text; o.close(); return f;
+}
+
+// ---------------------------------------------------------------- parameter-handle histories (shared)
+// What the caller of lib/amgcl.h may expect of a parameter handle after a sequence of amgcl_params_seti / setf /
+// sets / read_json calls, computed without the handle:
+//   last    for every path written since the last read_json (which REPLACES the content), the text of the LAST value
+//           written to it -- what prm.get(path, default) of every reader in amgcl must see
+//   shadow  a boost::property_tree filled with the same put() sequence (read_json: cleared, then put() of the entries of
+//           the file in file order)
+// and, of the handle alone: no node has two children with the same key (every setter overwrites; readers return the
+// FIRST match, so a second sibling would be a value that was set and is never seen).
+static bool valid_path(const std::string &k) {
+    if (k.empty() || k.front() == '.' || k.back() == '.') return false;
+    for (size_t i = 0; i < k.size(); ++i) {
+        char ch = k[i];
+        if (ch == '.') { if (k[i-1] == '.') return false; } else if (!(isalnum((unsigned char)ch) || ch == '_')) return false;
+    }
+    return true;
+}
+static bool dot_prefix(const std::string &a, const std::string &b) {         // a is b or an ancestor of b
+    return b.compare(0, a.size(), a) == 0 && (b.size() == a.size() || b[a.size()] == '.');
+}
+// one (key type value) triple of an op line
+static PEnt read_pent(Cur &c) {
+    PEnt e; e.key = c.tok(); const std::string &ty = c.tok(); if (ty.size() != 1) throw bad_input("type"); e.type = ty[0];
+    if (e.type == 'i') { long v = c.nat(); if (v < -1000000 || v > 1000000) throw bad_input("int"); e.i = (int)v; }
+    else if (e.type == 'f') { Q q = c.rat(); double d = exact_double(q); e.f = (float)d; if ((double)e.f != d) throw bad_input("not a float"); }
+    else if (e.type == 's') { e.s = c.tok(); for (char ch : e.s) if (!(isalnum((unsigned char)ch) || ch == '_')) throw bad_input("string"); }
+    else throw bad_input("type");
+    return e;
+}
+// the entries of one JSON file: valid paths, no path twice, no path that is an ancestor of another one
+static void check_file_entries(const std::vector<PEnt> &es) {
+    for (size_t a = 0; a < es.size(); ++a) {
+        if (!valid_path(es[a].key)) throw bad_input("path");
+        for (size_t b = 0; b < es.size(); ++b) if (a != b && dot_prefix(es[a].key, es[b].key)) throw bad_input("file keys");
+    }
+}
+static void c_set(amgclHandle h, const PEnt &e) {
+    if (e.type == 'i') amgcl_params_seti(h, e.key.c_str(), e.i); else if (e.type == 'f') amgcl_params_setf(h, e.key.c_str(), e.f); else amgcl_params_sets(h, e.key.c_str(), e.s.c_str());
+}
+static void c_read_json(amgclHandle h, const std::vector<PEnt> &es) {
+    std::string f = json_file(json_of(es, "")); amgcl_params_read_json(h, f.c_str()); unlink(f.c_str());
+}
+struct PShadow {
+    PT shadow;
+    std::vector<std::pair<std::string, std::string>> last;      // path -> text, in order of first write
+    std::vector<std::string> file_keys;                         // paths that came from the last read_json and were not written since
+    long overwrites = 0, file_overrides = 0, files = 0, writes = 0;
+    void note(const std::string &key, const std::string &text, bool from_file) {
+        ++writes;
+        if (!from_file) { auto f = std::find(file_keys.begin(), file_keys.end(), key); if (f != file_keys.end()) { ++file_overrides; file_keys.erase(f); } }
+        for (auto &kv : last) if (kv.first == key) { if (!from_file && kv.second != text) ++overwrites; kv.second = text; return; }
+        last.push_back({key, text});
+    }
+    void set(const PEnt &e) { ref_put(shadow, e, e.key); note(e.key, value_text(e), false); }
+    void file(const std::vector<PEnt> &es) {
+        shadow = PT(); last.clear(); file_keys.clear(); ++files;
+        for (auto &e : es) { shadow.put(e.key, value_text(e)); note(e.key, value_text(e), true); file_keys.push_back(e.key); }
+    }
+};
+static std::string find_dup(const PT &p, const std::string &at) {
+    std::vector<std::string> seen;
+    for (auto &kv : p) {
+        std::string here = at.empty() ? kv.first : at + "." + kv.first;
+        if (std::find(seen.begin(), seen.end(), kv.first) != seen.end()) return here;
+        seen.push_back(kv.first);
+        std::string d = find_dup(kv.second, here); if (!d.empty()) return d;
+    }
+    return "";
+}
+static std::string tree_diff(const PT &got, const PT &want, const std::string &at) {
+    std::string nm = at.empty() ? "<root>" : at;
+    if (got.data() != want.data()) return "value of " + nm + " is '" + got.data() + "', expected '" + want.data() + "'";
+    auto g = got.begin(), w = want.begin(); size_t i = 0;
+    for (; g != got.end() && w != want.end(); ++g, ++w, ++i) {
+        if (g->first != w->first) return "child #" + std::to_string(i) + " of " + nm + " is '" + g->first + "', expected '" + w->first + "'";
+        std::string d = tree_diff(g->second, w->second, at.empty() ? g->first : at + "." + g->first); if (!d.empty()) return d;
+    }
+    if (g != got.end()) return nm + " has an extra child '" + g->first + "'";
+    if (w != want.end()) return nm + " lacks the child '" + w->first + "'";
+    return "";
+}
+// the three expectations above, on the tree behind a live parameter handle; returns "" or the first violation
+static std::string check_handle(amgclHandle h, const PShadow &sh) {
+    const PT &got = *static_cast<Params*>(h);
+    for (auto &kv : sh.last) {
+        auto v = got.get_optional<std::string>(kv.first);
+        if (!v) return "parameter '" + kv.first + "' was written but is not present in the handle";
+        if (*v != kv.second) return "parameter '" + kv.first + "' reads back '" + *v + "' but the last value written to it is '" + kv.second + "'";
+    }
+    std::string d = find_dup(got, "");
+    if (!d.empty()) return "the handle holds two sibling nodes '" + d + "'";
+    if (!(got == sh.shadow)) return "the handle differs from a ptree filled with the same put() sequence: " + tree_diff(got, sh.shadow, "");
+    return "";
+}
+static std::string pent_str(const PEnt &e) { return std::string(e.type == 'i' ? "seti" : e.type == 'f' ? "setf" : "sets") + " " + e.key + " " + value_text(e); }
 
 #ifndef CAPI_IMPL_ONLY
 // ================================================================= capi_view
@@ -305,6 +442,7 @@ static Result do_script(Cur &c) {
                 amgcl_params_seti(s.h, "precond.coarse_enough", v);  s.shadow.put("precond.coarse_enough", v);
                 amgcl_params_setf(s.h, "solver.tol", tol);           s.shadow.put("solver.tol", tol);
                 amgcl_params_sets(s.h, "solver.type", ty);           s.shadow.put("solver.type", std::string(ty));
+                if (!(*static_cast<Params*>(s.h) == s.shadow)) r.fail("call " + std::to_string(i) + ": parameter handle differs from a ptree filled with the same put() sequence: " + tree_diff(*static_cast<Params*>(s.h), s.shadow, ""));
                 ++s.nset; ++uses;
             }
             else if (k.op == "pdestroy") { if (auto w = check(k.h, 'p')) { bad(w); break; } amgcl_params_destroy(slots[k.h].h); slots[k.h].alive = false; }
@@ -370,39 +508,75 @@ static Result do_script(Cur &c) {
     r.nontrivial = calls.size() >= 3 && (uses + reports) >= 1;
     return r;
 }
+// ================================================================= capi_params
+// capi_params <event>*      the CONTENT of parameter handles after a history of calls (answered by the Lean model with the
+//                           property-tree semantics of Model/PTree.lean: put = overwrite the first match or append):
+//   new | seti p path int | setf p path dyadic | sets p path text | json p K (path i|f|s value)^K | del p
+// Result: `ok` and, per handle in creation order, `dead` or the tree behind the handle in preorder:
+//   node = `=<data> <#children> (<key> node)*`.
+// Floats are restricted to m / 2^k with k <= 6, |m| < 2^15: their text (9 significant digits, the precision Boost's
+// stream translator uses for float) is then the exact, plain decimal expansion, which the model prints as well.
+static bool simple_dyadic(double d) {
+    for (int k = 0; k <= 6; ++k) { double m = std::ldexp(d, k); if (m == std::floor(m)) return std::fabs(m) < 32768.0; }
+    return false;
+}
+static void dump_tree(Line &l, const PT &p) {
+    l << ("=" + p.data()) << (long)p.size();
+    for (auto &kv : p) { l << kv.first; dump_tree(l, kv.second); }
+}
+static Result do_params(Cur &c) {
+    Result r;
+    struct Ev { std::string op; long h = -1; PEnt e; std::vector<PEnt> es; };
+    std::vector<Ev> evs; std::vector<int> alive;
+    auto check_ent = [&](const PEnt &e) {
+        if (!valid_path(e.key)) throw bad_input("path");
+        if (e.type == 'f' && !simple_dyadic((double)e.f)) throw bad_input("float text");
+        if (e.type == 's' && e.s.empty()) throw bad_input("empty");
+    };
+    while (!c.end()) {
+        Ev k; k.op = c.tok();
+        auto ph = [&]() { long h = c.nat(); if (h < 0 || h >= (long)alive.size() || !alive[h]) throw bad_input("handle"); return h; };
+        if (k.op == "new") alive.push_back(1);
+        else if (k.op == "seti" || k.op == "setf" || k.op == "sets") {
+            k.h = ph(); Toks t{"", c.tok(), std::string(1, k.op[3])}; t.push_back(c.tok()); Cur c2(t); k.e = read_pent(c2); check_ent(k.e);
+        }
+        else if (k.op == "json") { k.h = ph(); long K = c.nat(); if (K < 0 || K > 64) throw bad_input("K"); for (long q = 0; q < K; ++q) { k.es.push_back(read_pent(c)); check_ent(k.es.back()); } check_file_entries(k.es); }
+        else if (k.op == "del") { k.h = ph(); alive[k.h] = 0; }
+        else throw bad_input("event");
+        evs.push_back(k);
+    }
+    if (evs.size() > 400) throw bad_input("too long");
+    struct PSlot { amgclHandle h = nullptr; bool alive = false; PShadow sh; };
+    std::vector<PSlot> ps; long overw = 0, fileov = 0, writes = 0, files = 0, dels = 0, renew = 0;
+    try {
+        for (size_t i = 0; i < evs.size(); ++i) {
+            const Ev &k = evs[i];
+            std::string ctx = "event " + std::to_string(i) + " (" + k.op;
+            if (k.op == "new") { PSlot s; s.h = amgcl_params_create(); s.alive = true; ps.push_back(std::move(s)); if (dels) ++renew; }
+            else if (k.op == "del") { amgcl_params_destroy(ps[k.h].h); ps[k.h].alive = false; ps[k.h].h = nullptr; ++dels; }
+            else if (k.op == "json") {
+                PSlot &s = ps[k.h]; overw += s.sh.overwrites; fileov += s.sh.file_overrides; s.sh.overwrites = s.sh.file_overrides = 0;
+                c_read_json(s.h, k.es); s.sh.file(k.es); ++files;
+                std::string d = check_handle(s.h, s.sh); if (!d.empty()) r.fail(ctx + " " + std::to_string(k.h) + ", amgcl_params_read_json): " + d);
+            } else {
+                PSlot &s = ps[k.h]; c_set(s.h, k.e); s.sh.set(k.e); ++writes;
+                std::string d = check_handle(s.h, s.sh); if (!d.empty()) r.fail(ctx + " " + std::to_string(k.h) + " " + k.e.key + " " + value_text(k.e) + "): " + d);
+            }
+        }
+        Line l; l << "ok";
+        for (auto &s : ps) { if (!s.alive) { l << "dead"; continue; } dump_tree(l, *static_cast<Params*>(s.h)); }
+        r.out = l.get();
+    } catch (const std::exception &e) { r.out = "exception"; r.fail(std::string("exception: ") + e.what()); }
+    for (auto &s : ps) { overw += s.sh.overwrites; fileov += s.sh.file_overrides; if (s.alive) amgcl_params_destroy(s.h); }
+    r.nontrivial = writes >= 2 && (overw + fileov) >= 1;
+    if (overw) r.tag("params_overwritten_path"); if (fileov) r.tag("params_setter_overrides_file"); if (files) r.tag("params_read_json");
+    if (renew) r.tag("params_destroy_create"); if (ps.size() >= 2) r.tag("params_several_handles");
+    return r;
+}
 #endif // !CAPI_IMPL_ONLY
 
 #ifdef CAPI_IMPL_ONLY
 // ================================================================= capi_solve
-struct PEnt { std::string key; char type; int i = 0; float f = 0; std::string s; };
-
-static void ref_put(PT &pt, const PEnt &e, const std::string &key) {
-    if (e.type == 'i') pt.put(key, e.i); else if (e.type == 'f') pt.put(key, e.f); else pt.put(key, e.s);
-}
-static std::string value_text(const PEnt &e) { PT t; ref_put(t, e, "v"); return t.get<std::string>("v"); }
-// JSON text of a parameter list (nested objects from dotted keys; numbers unquoted, strings quoted)
-struct JNode { bool leaf = false; std::string text; std::vector<std::pair<std::string, JNode>> kids;
-    JNode& kid(const std::string &k) { for (auto &p : kids) if (p.first == k) return p.second; kids.push_back({k, JNode()}); return kids.back().second; } };
-static void jemit(std::ostream &os, const JNode &nd) {
-    if (nd.leaf) { os << nd.text; return; }
-    os << "{"; bool first = true;
-    for (auto &p : nd.kids) { if (!first) os << ", "; first = false; os << '"' << p.first << "\": "; jemit(os, p.second); }
-    os << "}";
-}
-static std::string json_of(const std::vector<PEnt> &ps, const std::string &strip) {
-    JNode root;
-    for (auto &e : ps) {
-        if (e.key.compare(0, strip.size(), strip) != 0) continue;
-        std::string key = e.key.substr(strip.size()); JNode *nd = &root; size_t pos = 0;
-        for (;;) { size_t d = key.find('.', pos); nd = &nd->kid(key.substr(pos, d == std::string::npos ? d : d - pos)); if (d == std::string::npos) break; pos = d + 1; }
-        nd->leaf = true; nd->text = e.type == 's' ? "\"" + e.s + "\"" : value_text(e);
-    }
-    std::ostringstream os; jemit(os, root); os << "\n"; return os.str();
-}
-static std::string json_file(const std::string &text) {
-    std::string f = g_outdir + "/capi_params_" + std::to_string((long)getpid()) + ".json";
-    std::ofstream o(f); o << text; o.close(); return f;
-}
 // route 0: typed setters, 1: amgcl_params_read_json, 2: NULL handle
 static amgclHandle c_params(const std::vector<PEnt> &ps, const std::string &strip, int route) {
     if (route == 2) return nullptr;
@@ -517,11 +691,7 @@ static Result do_solve(Cur &c) {
     if (nt < 1 || nt > 64 || (base != 0 && base != 1) || K < 0 || K > 64) throw bad_input("header");
     std::vector<PEnt> ps;
     for (long k = 0; k < K; ++k) {
-        PEnt e; e.key = c.tok(); const std::string &ty = c.tok(); if (ty.size() != 1) throw bad_input("type"); e.type = ty[0];
-        if (e.type == 'i') { long v = c.nat(); if (v < -1000000 || v > 1000000) throw bad_input("int"); e.i = (int)v; }
-        else if (e.type == 'f') { Q q = c.rat(); double d = exact_double(q); e.f = (float)d; if ((double)e.f != d) throw bad_input("not a float"); }
-        else if (e.type == 's') { e.s = c.tok(); for (char ch : e.s) if (!(isalnum((unsigned char)ch) || ch == '_')) throw bad_input("string"); }
-        else throw bad_input("type");
+        PEnt e = read_pent(c);
         for (auto &o : ps) if (o.key == e.key) throw bad_input("duplicate key");
         ps.push_back(e);
     }
@@ -590,6 +760,208 @@ static Result do_solve(Cur &c) {
     if (!first.unknown.empty()) r.tag("unknown_param");
     return r;
 }
+// ================================================================= capi_hist
+// capi_hist nt <A> <rhs> <x0> <event>*     parameter-handle HISTORIES, executed for real:
+//   new                         amgcl_params_create                                   -> parameter handle #p (creation order)
+//   set p key i|f|s value       amgcl_params_seti / setf / sets                       (the same path may be written again and again)
+//   json p K (key t value)^K    amgcl_params_read_json of a file with these entries   (replaces the content of the handle)
+//   pdel p                      amgcl_params_destroy
+//   mk s|a base p|null          amgcl_solver_create[_f] / amgcl_precond_create[_f] with handle p -> object #o, used at once
+//   use o                       solver: solve, solve_f, solve_mtx, solve_mtx_f;  precond: apply;  + report, parameters
+//   odel o                      amgcl_solver_destroy / amgcl_precond_destroy
+// After EVERY set / json the tree behind the handle is checked (check_handle above).  Every mk builds, next to the C
+// object, the C++ classes from a ptree filled with the same put() sequence; every use compares them bitwise (and every
+// _f entry point with its 0-based twin).  Objects alive at the end are used once more (after all later changes to and
+// the destruction of their parameter handle: the C API copies the parameters at creation) and destroyed.
+typedef amgcl::make_solver<amgcl::runtime::preconditioner<Backend>, amgcl::runtime::solver::wrapper<Backend>> RtSolverH;
+struct HEv { std::string op; long h = -1; bool null = false; long base = 0; char kind = 0; PEnt e; std::vector<PEnt> es; };
+struct HObj {
+    char kind = 's'; bool alive = false; long base = 0; amgclHandle h = nullptr; long uses = 0; size_t levels = 0; int last_it = -1;
+    std::unique_ptr<Solver> r1; std::unique_ptr<RtSolverH> r2; std::unique_ptr<AMG> ra;
+};
+static std::string cmp_solve(const SolveOut &a, const SolveOut &b) {
+    if (a.it != b.it) return "iterations " + std::to_string(a.it) + " vs " + std::to_string(b.it);
+    if (bits(a.res) != bits(b.res)) return "residual " + hex(bits(a.res)) + " vs " + hex(bits(b.res));
+    if (!same_bits(a.x, b.x)) return "solution vectors differ";
+    return "";
+}
+static Result do_hist(Cur &c) {
+    Result r;
+    long nt = c.nat(); if (nt < 1 || nt > 64) throw bad_input("nt");
+    Mat A = c.mat(); auto rhsq = c.vec(); auto x0q = c.vec();
+    { std::string why; auto Ac = A.crs(); if (!crs_wf(*Ac, why)) throw bad_input(why); }
+    Sys S = to_sys(A);
+    if ((long)rhsq.size() != S.n || (long)x0q.size() != S.n) throw bad_input("vector size");
+    std::vector<double> rhs = to_doubles(rhsq), x0 = to_doubles(x0q);
+    // the replacement matrix of solve_mtx[_f]: the same pattern with a heavier diagonal
+    Sys S2 = S; for (int i = 0; i < S2.n; ++i) for (int j = S2.ptr[i]; j < S2.ptr[i+1]; ++j) if (S2.col[j] == i) S2.val[j] *= 1.25;
+    // ---- parse and validate the whole history first (nothing is executed for a malformed line)
+    std::vector<HEv> evs;
+    { std::vector<int> pal; std::vector<std::pair<char,bool>> oal;
+      while (!c.end()) {
+        HEv k; k.op = c.tok();
+        auto ph = [&]() { long h = c.nat(); if (h < 0 || h >= (long)pal.size() || !pal[h]) throw bad_input("params handle"); return h; };
+        auto oh = [&]() { long h = c.nat(); if (h < 0 || h >= (long)oal.size() || !oal[h].second) throw bad_input("object handle"); return h; };
+        if (k.op == "new") pal.push_back(1);
+        else if (k.op == "set") { k.h = ph(); k.e = read_pent(c); if (!valid_path(k.e.key)) throw bad_input("path"); }
+        else if (k.op == "json") { k.h = ph(); long K = c.nat(); if (K < 0 || K > 64) throw bad_input("K"); for (long q = 0; q < K; ++q) k.es.push_back(read_pent(c)); check_file_entries(k.es); }
+        else if (k.op == "pdel") { k.h = ph(); pal[k.h] = 0; }
+        else if (k.op == "mk") {
+            const std::string &kd = c.tok(); if (kd != "s" && kd != "a") throw bad_input("kind"); k.kind = kd[0];
+            k.base = c.nat(); if (k.base != 0 && k.base != 1) throw bad_input("base");
+            if (!c.end() && c.t[c.i] == "null") { c.tok(); k.null = true; } else k.h = ph();
+            oal.push_back({k.kind, true});
+        }
+        else if (k.op == "use") k.h = oh();
+        else if (k.op == "odel") { k.h = oh(); oal[k.h].second = false; }
+        else throw bad_input("event");
+        evs.push_back(k);
+      }
+      if (evs.size() > 400) throw bad_input("too long");
+    }
+#ifdef _OPENMP
+    omp_set_num_threads((int)nt);
+#endif
+    struct PSlot { amgclHandle h = nullptr; bool alive = false; PShadow sh; long creations = 0; };
+    std::vector<PSlot> ps; std::vector<HObj> os;
+    std::vector<std::string> fails, tfails;          // behavioural differences / first difference of a handle's tree
+    auto fail = [&](const std::string &w) { if (fails.size() < 2) fails.push_back(w); };
+    auto tfail = [&](const std::string &w) { if (tfails.empty()) tfails.push_back(w); };
+    auto tupS = std::tie(S.n, S.ptr, S.col, S.val); auto tupS2 = std::tie(S2.n, S2.ptr, S2.col, S2.val);
+    long n_mk = 0, n_mk_rewritten = 0, n_mk_file_override = 0, n_mk_reused = 0, n_threw = 0, n_recreate = 0, n_pdel = 0; bool good_solve = false;
+    Line out; out << "ok";
+
+    auto use = [&](HObj &o, const std::string &ctx) {
+        ++o.uses;
+        if (o.kind == 's') {
+            Solver *slv = static_cast<Solver*>(o.h);
+            SolveOut ref = ref_solve(*o.r1, (decltype(tupS)*)nullptr, rhs, x0), ref2 = ref_solve(*o.r2, (decltype(tupS)*)nullptr, rhs, x0);
+            SolveOut c0 = c_solve(o.h, rhs, x0, false), c1 = c_solve(o.h, rhs, x0, true);
+            std::string d;
+            if (!(d = cmp_solve(c0, ref)).empty()) fail(ctx + ": amgcl_solver_solve vs make_solver<amg<runtime>, runtime solver> configured by the same put() sequence: " + d);
+            if (!(d = cmp_solve(c0, ref2)).empty()) fail(ctx + ": amgcl_solver_solve vs make_solver<runtime::preconditioner, runtime solver> configured by the same put() sequence: " + d);
+            if (!(d = cmp_solve(c1, c0)).empty()) fail(ctx + ": amgcl_solver_solve_f vs amgcl_solver_solve: " + d);
+            SolveOut refm = ref_solve(*o.r1, &tupS2, rhs, x0);
+            SolveOut m0 = c_solve_mtx(o.h, S2, 0, rhs, x0), m1 = c_solve_mtx(o.h, S2, 1, rhs, x0);
+            if (!(d = cmp_solve(m0, refm)).empty()) fail(ctx + ": amgcl_solver_solve_mtx vs the C++ solver called with the replacement matrix: " + d);
+            if (!(d = cmp_solve(m1, m0)).empty()) fail(ctx + ": amgcl_solver_solve_mtx_f (1-based arrays) vs amgcl_solver_solve_mtx (0-based arrays): " + d);
+            if (!(d = cmp_solve(m1, refm)).empty()) fail(ctx + ": amgcl_solver_solve_mtx_f vs the C++ solver called with the replacement matrix: " + d);
+            std::string got; { CoutCapture cap; amgcl_solver_report(o.h); got = cap.str(); }
+            std::ostringstream rs; rs << o.r1->precond() << std::endl;
+            if (got != rs.str()) fail(ctx + ": amgcl_solver_report text differs from the C++ object's");
+            PT pc, pr; slv->get_params(pc); o.r1->get_params(pr);
+            if (!(pc == pr)) fail(ctx + ": parameters exported by the solver behind the handle differ from the C++ object's: " + tree_diff(pc, pr, ""));
+            if (crs_sig(slv->system_matrix()) != crs_sig(o.r1->system_matrix())) fail(ctx + ": stored system matrix differs");
+            o.last_it = c0.it;
+            if (o.levels >= 2 && c0.it >= 2) good_solve = true;
+            out << (long)c0.it << hex(bits(c0.res)) << vhash(c0.x) << (long)m0.it << vhash(m0.x);
+        } else {
+            AMG *amg = static_cast<AMG*>(o.h);
+            std::vector<double> xr(rhs.size(), -555.0); o.ra->apply(rhs, xr);
+            std::vector<double> xc = c_apply(o.h, rhs);
+            if (!same_bits(xc, xr)) fail(ctx + ": amgcl_precond_apply vs amg<runtime> configured by the same put() sequence: result vectors differ");
+            std::string got; { CoutCapture cap; amgcl_precond_report(o.h); got = cap.str(); }
+            std::ostringstream rs; rs << *o.ra << std::endl;
+            if (got != rs.str()) fail(ctx + ": amgcl_precond_report text differs from the C++ object's");
+            PT pc, pr; amg->prm.get(pc, ""); o.ra->prm.get(pr, "");
+            if (!(pc == pr)) fail(ctx + ": parameters exported by the preconditioner behind the handle differ from the C++ object's: " + tree_diff(pc, pr, ""));
+            if (crs_sig(amg->system_matrix()) != crs_sig(o.ra->system_matrix())) fail(ctx + ": stored system matrix differs");
+            if (o.levels >= 2) good_solve = true;
+            out << vhash(xc);
+        }
+    };
+
+    bool aborted = false;
+    try {
+    for (size_t i = 0; i < evs.size(); ++i) {
+        const HEv &k = evs[i];
+        std::string ctx = "event " + std::to_string(i) + " (" + k.op;
+        if (k.op == "new") { PSlot s; s.h = amgcl_params_create(); s.alive = true; if (n_pdel) ++n_recreate; ps.push_back(std::move(s)); }
+        else if (k.op == "set") {
+            PSlot &s = ps[k.h]; c_set(s.h, k.e); s.sh.set(k.e);
+            std::string d = check_handle(s.h, s.sh); if (!d.empty()) tfail(ctx + " " + std::to_string(k.h) + " " + k.e.key + " " + value_text(k.e) + ", amgcl_params_" + pent_str(k.e).substr(0, 4) + "): " + d);
+        }
+        else if (k.op == "json") {
+            PSlot &s = ps[k.h]; c_read_json(s.h, k.es); s.sh.file(k.es);
+            std::string d = check_handle(s.h, s.sh); if (!d.empty()) tfail(ctx + " " + std::to_string(k.h) + ", amgcl_params_read_json): " + d);
+            // the same file through boost::property_tree::read_json
+            PT viaboost; { std::string f = json_file(json_of(k.es, "")); boost::property_tree::read_json(f, viaboost); unlink(f.c_str()); }
+            if (!(viaboost == s.sh.shadow)) fail(ctx + "): harness self-check: read_json of the file differs from put() of its entries: " + tree_diff(viaboost, s.sh.shadow, ""));
+        }
+        else if (k.op == "pdel") { amgcl_params_destroy(ps[k.h].h); ps[k.h].alive = false; ps[k.h].h = nullptr; ++n_pdel; }
+        else if (k.op == "mk") {
+            ctx += std::string(" ") + k.kind + " base " + std::to_string(k.base) + (k.null ? " null" : " params " + std::to_string(k.h)) + ")";
+            HObj o; o.kind = k.kind; o.base = k.base;
+            amgclHandle prm = k.null ? nullptr : ps[k.h].h;
+            PT pt; if (!k.null) pt = ps[k.h].sh.shadow;
+            bool cthrew = false, rthrew = false; std::string cwhat, rwhat;
+            capi_unknown().clear();
+            try { o.h = k.kind == 's' ? c_solver_create(S, (int)k.base, prm) : c_precond_create(S, (int)k.base, prm); }
+            catch (const std::exception &e) { cthrew = true; cwhat = e.what(); }
+            std::vector<std::string> unk_c = capi_unknown(); capi_unknown().clear();
+            try {
+                if (k.kind == 's') { o.r1.reset(k.null ? new Solver(tupS) : new Solver(tupS, pt)); }
+                else               { o.ra.reset(k.null ? new AMG(tupS)    : new AMG(tupS, pt)); }
+            } catch (const std::exception &e) { rthrew = true; rwhat = e.what(); }
+            std::vector<std::string> unk_r = capi_unknown(); capi_unknown().clear();
+            if (k.kind == 's' && !rthrew) { try { o.r2.reset(k.null ? new RtSolverH(tupS) : new RtSolverH(tupS, pt)); } catch (const std::exception &e) { rthrew = true; rwhat = e.what(); } }
+            capi_unknown().clear();
+            ++n_mk;
+            if (!k.null) {
+                PSlot &s = ps[k.h];
+                if (s.sh.overwrites) ++n_mk_rewritten;
+                if (s.sh.file_overrides) ++n_mk_file_override;
+                if (s.creations++) ++n_mk_reused;
+            }
+            if (cthrew != rthrew || (cthrew && cwhat != rwhat)) {
+                fail(ctx + ": " + (cthrew ? "the C API threw (" + cwhat + ")" : std::string("the C API did not throw")) + ", the C++ class configured by the same put() sequence " + (rthrew ? "threw (" + rwhat + ")" : std::string("did not")));
+                if (o.h) { if (k.kind == 's') amgcl_solver_destroy(o.h); else amgcl_precond_destroy(o.h); o.h = nullptr; }
+            }
+            if (cthrew || rthrew) { ++n_threw; o.alive = false; o.r1.reset(); o.r2.reset(); o.ra.reset(); os.push_back(std::move(o)); out << "threw"; continue; }
+            if (unk_c != unk_r) {
+                std::string a, b; for (auto &u : unk_c) a += " " + u; for (auto &u : unk_r) b += " " + u;
+                fail(ctx + ": parameters reported unknown by the C API [" + a + " ] vs by the C++ class [" + b + " ]");
+            }
+            o.alive = true;
+            o.levels = k.kind == 's' ? amgcl_verif::access::nlevels(static_cast<Solver*>(o.h)->precond()) : amgcl_verif::access::nlevels(*static_cast<AMG*>(o.h));
+            out << "mk" << (long)o.levels;
+            use(o, ctx);
+            os.push_back(std::move(o));
+        }
+        else if (k.op == "use") { if (os[k.h].alive) use(os[k.h], ctx + " " + std::to_string(k.h) + ")"); }
+        else if (k.op == "odel") {
+            HObj &o = os[k.h];
+            if (o.alive) { if (o.kind == 's') amgcl_solver_destroy(o.h); else amgcl_precond_destroy(o.h); o.alive = false; o.r1.reset(); o.r2.reset(); o.ra.reset(); }
+        }
+    }
+    } catch (const std::exception &e) { aborted = true; fail(std::string("exception outside a create call: ") + e.what()); }
+    // objects still alive: used once more, now that their parameter handles have been changed / destroyed
+    for (auto &s : ps) if (s.alive) { amgcl_params_destroy(s.h); s.alive = false; }
+    for (size_t j = 0; j < os.size(); ++j) if (os[j].alive) {
+        if (!aborted) try { use(os[j], "final use of object " + std::to_string(j) + " (after all parameter handles are gone)"); }
+                      catch (const std::exception &e) { aborted = true; fail(std::string("exception in the final use: ") + e.what()); }
+        if (os[j].kind == 's') amgcl_solver_destroy(os[j].h); else amgcl_precond_destroy(os[j].h);
+        os[j].alive = false;
+    }
+    os.clear(); ps.clear();
+#ifdef _OPENMP
+    omp_set_num_threads(1);
+#endif
+    fails.insert(fails.begin(), tfails.begin(), tfails.end());
+    if (!fails.empty()) { std::string w = fails[0]; for (size_t q = 1; q < fails.size(); ++q) w += "  |  " + fails[q]; r.fail(w); }
+    static long hist_no = 0;
+    if (r.ok && ++hist_no % 32 == 1) { if (__lsan_do_recoverable_leak_check()) r.fail("memory leaked by the create/destroy pairs of the history"); r.tag("lsan_periodic"); }
+    r.out = out.get();
+    r.nontrivial = n_mk >= 1 && good_solve && (n_mk_rewritten + n_mk_file_override + n_mk_reused) >= 1;
+    r.tag("hist_nt" + std::to_string(nt));
+    if (n_mk_rewritten) r.tag("hist_overwritten_path");
+    if (n_mk_file_override) r.tag("hist_setter_overrides_file");
+    if (n_mk_reused) r.tag("hist_handle_reused");
+    if (n_recreate) r.tag("hist_destroy_create");
+    if (n_threw) r.tag("hist_ctor_threw");
+    { std::set<std::string> tg; for (auto &k : evs) if (k.op == "mk") { tg.insert(std::string("hist_mk_") + k.kind + (k.base ? "_f" : "_c")); if (k.null) tg.insert("hist_mk_null"); } for (auto &t : tg) r.tag(t); }
+    return r;
+}
 #endif // CAPI_IMPL_ONLY
 
 static Result execute(const Toks &t) {
@@ -598,8 +970,10 @@ static Result execute(const Toks &t) {
 #ifndef CAPI_IMPL_ONLY
     if (op == "capi_view") return do_view(c);
     if (op == "capi_script") return do_script(c);
+    if (op == "capi_params") return do_params(c);
 #else
     if (op == "capi_solve") return do_solve(c);
+    if (op == "capi_hist") return do_hist(c);
 #endif
     return Result("bad-op");
 }
@@ -642,7 +1016,7 @@ static void gen_script(Rng &rng, const Opts &o, std::vector<std::string> &lines,
     for (long k = 0; k < N; ++k) {
         long n = rng.range(3, o.thorough() ? 60 : 24);
         Line l; l << "capi_script" << n;
-        struct H { char kind; bool alive; };
+        struct H { char kind; bool alive; int nset = 0; };
         std::vector<H> hs;
         long len = rng.range(1, 16);
         bool sabotage = rng.coin(1, 3); long sab_at = rng.range(len / 2, len - 1);
@@ -660,9 +1034,15 @@ static void gen_script(Rng &rng, const Opts &o, std::vector<std::string> &lines,
                 cand.push_back("aapply " + std::to_string((long)hs.size() + rng.range(0, 2)));
                 l << cand[rng.next() % cand.size()]; continue;
             }
-            int w = (int)rng.range(0, 11); long h;
+            int w = (int)rng.range(0, 15); long h;
+            // 12..15: a parameter handle that is written again (pset overwrites the paths of the previous pset with other
+            // values), used for a creation after that, and the created object used
+            auto pick_set = [&](int least) -> long { std::vector<long> c; for (size_t i = 0; i < hs.size(); ++i) if (hs[i].kind == 'p' && hs[i].alive && hs[i].nset >= least) c.push_back((long)i); return c.empty() ? -1 : c[rng.next() % c.size()]; };
             if (w == 0 || hs.empty()) { l << "pcreate"; hs.push_back({'p', true}); }
-            else if (w == 1 && (h = pick('p', true)) >= 0) { l << "pset" << h; }
+            else if (w == 12 && (h = pick_set(1)) >= 0) { l << "pset" << h; ++hs[h].nset; }
+            else if (w == 13 && (h = pick_set(2)) >= 0) { bool slv = rng.coin(); l << (slv ? "screate" : "acreate") << rng.range(0, 1) << h; hs.push_back({slv ? 's' : 'a', true}); }
+            else if ((w == 14 || w == 15) && !hs.empty() && hs.back().alive && hs.back().kind != 'p') { h = (long)hs.size() - 1; if (hs[h].kind == 'a') l << "aapply" << h; else if (rng.coin()) l << "ssolve" << h; else l << "smtx" << rng.range(0, 1) << h; }
+            else if ((w == 1 || w >= 12) && (h = pick('p', true)) >= 0) { l << "pset" << h; ++hs[h].nset; }
             else if (w == 2 && (h = pick('p', true)) >= 0) { l << "pdestroy" << h; hs[h].alive = false; }
             else if (w == 3) { h = rng.coin(1, 3) ? -1 : pick('p', true); l << "acreate" << rng.range(0, 1); if (h < 0) l << "null"; else l << h; hs.push_back({'a', true}); }
             else if (w == 4) { h = rng.coin(1, 3) ? -1 : pick('p', true); l << "screate" << rng.range(0, 1); if (h < 0) l << "null"; else l << h; hs.push_back({'s', true}); }
@@ -682,6 +1062,45 @@ static void gen_script(Rng &rng, const Opts &o, std::vector<std::string> &lines,
     lines.push_back("capi_script 4 pcreate pset");             // missing handle
     lines.push_back("capi_script 4 acreate 2 null");           // base 2
     lines.push_back("capi_script 4 frobnicate 0");
+}
+static void gen_params(Rng &rng, const Opts &o, std::vector<std::string> &lines, long N) {
+    // few paths, related as ancestor / sibling / equal, so that overwrites, parents with a value and children are frequent
+    static const std::vector<std::string> paths = { "a", "b", "a.b", "a.c", "a.b.c", "a.b.d", "b.a", "c", "solver.tol", "solver.type", "solver.maxiter",
+        "precond.relax.type", "precond.coarsening.aggr.eps_strong", "precond.coarse_enough", "x1.y_2.z3", "solver" };
+    static const std::vector<std::string> texts = { "cg", "x", "true", "false", "spai0", "0", "12", "bicgstab", "A_b" };
+    for (long k = 0; k < N; ++k) {
+        std::vector<int> alive; Line l; l << "capi_params";
+        long len = rng.range(2, o.thorough() ? 60 : 30);
+        auto value = [&](Line &q, bool with_type, const char *&setter) {
+            int t = (int)rng.range(0, 2);
+            if (t == 0) { setter = "seti"; if (with_type) q << "i"; q << rng.range(-5, 40); }
+            else if (t == 1) { setter = "setf"; if (with_type) q << "f"; long kk = rng.range(0, 6); long m = rng.range(-2000, 2000); q << Q::frac(m, 1L << kk); }
+            else { setter = "sets"; if (with_type) q << "s"; q << rng.pick(texts); }
+        };
+        for (long s = 0; s < len; ++s) {
+            std::vector<long> lp; for (size_t q = 0; q < alive.size(); ++q) if (alive[q]) lp.push_back((long)q);
+            int w = (int)rng.range(0, 19);
+            if (lp.empty() || w == 0) { l << "new"; alive.push_back(1); continue; }
+            long h = lp[rng.next() % lp.size()];
+            if (w == 1) { l << "del" << h; alive[h] = 0; }
+            else if (w <= 3) {
+                std::vector<std::string> ks; long K = rng.range(0, 6);
+                for (long q = 0; q < K; ++q) { const std::string &p = rng.pick(paths); bool clash = false; for (auto &e : ks) if (dot_prefix(e, p) || dot_prefix(p, e)) clash = true; if (!clash) ks.push_back(p); }
+                l << "json" << h << (long)ks.size();
+                for (auto &p : ks) { const char *st; l << p; value(l, true, st); }
+            } else { Line v; const char *st = ""; value(v, false, st); l << st << h << rng.pick(paths) << v.get(); }
+        }
+        lines.push_back(l.get());
+    }
+    lines.push_back("capi_params new seti 0 a 1 seti 0 a 2 seti 0 a.b 3 sets 0 a x");     // the demo of the rule: last write wins, children kept
+    lines.push_back("capi_params seti 0 a 1");                   // handle never created
+    lines.push_back("capi_params new del 0 sets 0 a x");         // destroyed handle
+    lines.push_back("capi_params new seti 0 a..b 1");            // empty path segment
+    lines.push_back("capi_params new setf 0 a 1/3");             // not a float
+    lines.push_back("capi_params new setf 0 a 1/128");           // outside the plain-decimal range of the model
+    lines.push_back("capi_params new json 0 2 a i 1 a.b i 2");   // value and object at one key
+    lines.push_back("capi_params new sets 0 a x-y");             // text outside [A-Za-z0-9_]
+    lines.push_back("capi_params new seti 0 a");                 // value missing
 }
 #endif
 
@@ -766,6 +1185,171 @@ static void gen_solve(Rng &rng, const Opts &o, std::vector<std::string> &lines, 
     lines.push_back("capi_solve 1 0 1 solver.tol f 1/3 1 1 1 0 1 0 1 1 1 0");            // 1/3 is not a float
     lines.push_back("capi_solve 1 0 0 2 2 1 0 1/3 1 1 1 0 2 1 1 2 0 0");                 // 1/3 not exact in binary64
 }
+// ---- parameter-handle histories
+static PEnt hist_value(Rng &rng, const std::string &key, bool sym, long n) {
+    static const std::vector<std::string> solvers = { "cg", "bicgstab", "bicgstabl", "gmres", "lgmres", "fgmres", "idrs", "richardson", "preonly" };
+    static const std::vector<std::string> coars = { "ruge_stuben", "aggregation", "smoothed_aggregation", "smoothed_aggr_emin" };
+    static const std::vector<std::string> relax = { "gauss_seidel", "ilu0", "iluk", "ilup", "ilut", "damped_jacobi", "spai0", "spai1", "chebyshev" };
+    static const std::vector<float> tols = { 1e-6f, 1e-8f, 1e-3f, 9.5367431640625e-07f /*2^-20*/, 1e-10f, 0.5f, 1e-2f, 1e-4f };
+    static const std::vector<float> fracs = { 0.72f, 0.5f, 0.08f, 1.0f, 0.25f, 0.9f, 1.5f, 2.0f / 3.0f };
+    PEnt e; e.key = key;
+    auto I = [&](long v) { e.type = 'i'; e.i = (int)v; }; auto F = [&](float v) { e.type = 'f'; e.f = v; }; auto S = [&](const std::string &v) { e.type = 's'; e.s = v; };
+    if (key == "solver.type") { std::string st = rng.pick(solvers); if (!sym && st == "cg") st = "bicgstab"; S(st); }
+    else if (key == "solver.tol") F(rng.pick(tols));
+    else if (key == "solver.maxiter") I(rng.range(1, 40));
+    else if (key == "solver.M") I(rng.range(2, 12));
+    else if (key == "solver.K") I(rng.range(1, 3));
+    else if (key == "solver.L") I(rng.range(1, 4));
+    else if (key == "solver.s") I(rng.range(1, 5));
+    else if (key == "solver.damping") F(rng.pick(fracs));
+    else if (key == "precond.coarsening.type") S(rng.pick(coars));
+    else if (key == "precond.relax.type") S(rng.pick(relax));
+    else if (key == "precond.coarse_enough") I(rng.range(2, std::max<long>(3, n / 2)));
+    else if (key == "precond.npre") I(rng.range(0, 3));
+    else if (key == "precond.npost") I(rng.range(1, 3));
+    else if (key == "precond.ncycle") I(rng.range(1, 2));
+    else if (key == "precond.pre_cycles") I(rng.range(0, 2));
+    else if (key == "precond.max_levels") I(rng.range(1, 4));
+    else if (key == "precond.direct_coarse") I(rng.range(0, 1));
+    else if (key == "precond.coarsening.aggr.eps_strong") F(rng.pick(fracs) * 0.1f);
+    else if (key == "precond.coarsening.relax") F(rng.pick(fracs));
+    else if (key == "precond.coarsening.over_interp") F(rng.pick(fracs) + 1.0f);
+    else if (key == "precond.coarsening.eps_strong") F(rng.pick(fracs) * 0.5f);
+    else if (key == "precond.coarsening.do_trunc") I(rng.range(0, 1));
+    else if (key == "precond.relax.damping") F(rng.pick(fracs));
+    else if (key == "precond.relax.k") I(rng.range(1, 2));
+    else if (key == "precond.relax.tau") F(rng.pick(fracs) * 0.01f);
+    else if (key == "precond.relax.degree") I(rng.range(1, 6));
+    else if (key == "solver.no_such_parameter") I(rng.range(1, 9));
+    else F(rng.pick(fracs));
+    // an integer parameter handed over as text through amgcl_params_sets
+    if (e.type == 'i' && e.i >= 0 && rng.coin(1, 10)) { e.type = 's'; e.s = std::to_string(e.i); }
+    return e;
+}
+static bool same_value(const PEnt &a, const PEnt &b) { return value_text(a) == value_text(b); }
+static void gen_hist(Rng &rng, const Opts &o, std::vector<std::string> &lines, long N) {
+    // keys that change the iteration visibly are drawn more often
+    static const std::vector<std::string> keys = {
+        "solver.type", "solver.type", "solver.type", "solver.tol", "solver.tol", "solver.tol", "solver.maxiter", "solver.maxiter", "solver.maxiter",
+        "precond.coarse_enough", "precond.coarse_enough", "precond.coarse_enough", "precond.relax.type", "precond.relax.type", "precond.coarsening.type", "precond.coarsening.type",
+        "solver.M", "solver.K", "solver.L", "solver.s", "solver.damping",
+        "precond.npre", "precond.npost", "precond.ncycle", "precond.pre_cycles", "precond.max_levels", "precond.direct_coarse",
+        "precond.coarsening.aggr.eps_strong", "precond.coarsening.relax", "precond.coarsening.over_interp", "precond.coarsening.eps_strong", "precond.coarsening.do_trunc",
+        "precond.relax.damping", "precond.relax.k", "precond.relax.tau", "precond.relax.degree", "solver.no_such_parameter", "precond.relax.no_such_parameter" };
+    for (long k = 0; k < N; ++k) {
+        long n = rng.range(4, o.thorough() ? 160 : 60);
+        bool sym = rng.coin(2, 3);
+        Mat A = sym ? gen_spd(rng, n, -1, 4) : gen_convdiff(rng, n);
+        n = A.n;
+        if (rng.coin(1, 5)) A = unsort(rng, A, false);
+        struct GH { bool alive = true; bool amg = false; std::vector<PEnt> cur; };
+        std::vector<GH> hs; long nobj = 0; std::vector<long> live_obj;
+        std::vector<std::string> ev; bool emin = false;
+        auto emit_ent = [&](Line &l, const GH &g, const PEnt &e) {
+            l << (g.amg ? e.key.substr(8) : e.key);
+            if (e.type == 'i') { l << "i" << (long)e.i; } else if (e.type == 'f') { l << "f"; l << float_q(e.f); } else { l << "s" << e.s; }
+            if (e.type == 's' && e.s == "smoothed_aggr_emin") emin = true;
+        };
+        auto pick_key = [&](const GH &g) { for (;;) { const std::string &key = rng.pick(keys); if (!g.amg || key.compare(0, 8, "precond.") == 0) return key; } };
+        auto g_new = [&](bool amg) { GH g; g.amg = amg; hs.push_back(g); ev.push_back("new"); return (long)hs.size() - 1; };
+        // write one path: an existing one with a DIFFERENT value (overwrite) or any path
+        auto g_set = [&](long h, bool overwrite) {
+            GH &g = hs[h]; PEnt e;
+            if (overwrite && !g.cur.empty()) {
+                const PEnt old = g.cur[rng.next() % g.cur.size()];
+                for (int t = 0; t < 8; ++t) { e = hist_value(rng, old.key, sym, n); if (!same_value(e, old)) break; }
+            } else e = hist_value(rng, pick_key(g), sym, n);
+            bool found = false; for (auto &c : g.cur) if (c.key == e.key) { c = e; found = true; } if (!found) g.cur.push_back(e);
+            Line l; l << "set" << h; emit_ent(l, g, e); ev.push_back(l.get());
+        };
+        auto g_json = [&](long h, long K) {
+            GH &g = hs[h]; g.cur.clear();
+            for (long q = 0; q < K; ++q) { PEnt e = hist_value(rng, pick_key(g), sym, n); bool dup = false; for (auto &c : g.cur) if (c.key == e.key) dup = true; if (!dup) g.cur.push_back(e); }
+            Line l; l << "json" << h << (long)g.cur.size(); for (auto &e : g.cur) emit_ent(l, g, e); ev.push_back(l.get());
+        };
+        auto g_mk = [&](long h) {           // h < 0: NULL parameters
+            bool amg = h >= 0 ? hs[h].amg : rng.coin();
+            if (h >= 0 && rng.coin(7, 8)) {  // the default coarse_enough (3000) means a single level for these sizes
+                bool has = false; for (auto &c : hs[h].cur) if (c.key == "precond.coarse_enough") has = true;
+                if (!has) { PEnt e = hist_value(rng, "precond.coarse_enough", sym, n); hs[h].cur.push_back(e); Line l; l << "set" << h; emit_ent(l, hs[h], e); ev.push_back(l.get()); }
+            }
+            if (h >= 0 && rng.coin(1, 12)) amg = !amg;          // a handle written for the other family: everything unknown, defaults
+            Line l; l << "mk" << (amg ? "a" : "s") << rng.range(0, 1); if (h < 0) l << "null"; else l << h; ev.push_back(l.get());
+            live_obj.push_back(nobj++);
+        };
+        auto g_pdel = [&](long h) { hs[h].alive = false; ev.push_back("pdel " + std::to_string(h)); };
+        auto g_obj = [&]() {               // use or destroy a live object
+            if (live_obj.empty()) return;
+            size_t q = rng.next() % live_obj.size();
+            if (rng.coin(2, 3)) ev.push_back("use " + std::to_string(live_obj[q]));
+            else { ev.push_back("odel " + std::to_string(live_obj[q])); live_obj.erase(live_obj.begin() + q); }
+        };
+        auto fill = [&](long h, long cnt) { for (long q = 0; q < cnt; ++q) g_set(h, false); };
+        int fam = (int)rng.range(0, 7);
+        bool amg = rng.coin(1, 4);
+        if (fam == 0) {             // a handle that is re-tuned and reused
+            long h = g_new(amg); fill(h, rng.range(2, 7)); g_mk(h);
+            for (long rep = rng.range(1, 3); rep > 0; --rep) { for (long q = rng.range(1, 4); q > 0; --q) g_set(h, rng.coin(4, 5)); if (rng.coin(1, 3)) g_obj(); g_mk(h); }
+        } else if (fam == 1) {      // values read from a file, then overridden by setters
+            long h = g_new(amg); g_json(h, rng.range(2, 9));
+            for (long q = rng.range(1, 4); q > 0; --q) g_set(h, rng.coin(5, 6));
+            g_mk(h);
+            if (rng.coin()) { for (long q = rng.range(1, 3); q > 0; --q) g_set(h, true); g_mk(h); }
+        } else if (fam == 2) {      // the same path written several times before the first use
+            long h = g_new(amg); fill(h, rng.range(1, 4));
+            for (long q = rng.range(2, 6); q > 0; --q) g_set(h, true);
+            if (rng.coin(1, 3)) fill(h, rng.range(1, 3));
+            g_mk(h);
+        } else if (fam == 3) {      // destroy + create (the allocator is free to return the same address)
+            long h = g_new(amg); fill(h, rng.range(2, 6)); if (rng.coin(2, 3)) g_mk(h); g_pdel(h);
+            std::vector<PEnt> old = hs[h].cur;
+            long h2 = g_new(amg);           // the same paths again, other values
+            for (auto &e : old) if (rng.coin(2, 3)) {
+                PEnt f = e; for (int t = 0; t < 8; ++t) { f = hist_value(rng, e.key, sym, n); if (!same_value(f, e)) break; }
+                hs[h2].cur.push_back(f); Line l; l << "set" << h2; emit_ent(l, hs[h2], f); ev.push_back(l.get());
+            }
+            if (rng.coin()) g_set(h2, true);
+            g_mk(h2);
+        } else if (fam == 4) {      // two handles written in turns
+            long a = g_new(amg), b = g_new(amg);
+            for (long q = rng.range(3, 10); q > 0; --q) g_set(rng.coin() ? a : b, rng.coin(1, 2));
+            g_mk(a); g_mk(b); if (rng.coin()) { g_set(a, true); g_mk(a); }
+        } else if (fam == 5) {      // a file replaces what was set before (and what an earlier file said)
+            long h = g_new(amg); fill(h, rng.range(1, 5)); if (rng.coin()) g_mk(h);
+            g_json(h, rng.range(0, 6)); g_mk(h);
+            if (rng.coin()) { if (rng.coin()) g_set(h, true); g_json(h, rng.range(1, 6)); if (rng.coin()) g_set(h, true); g_mk(h); }
+        } else {                    // random walk over all calls
+            long len = rng.range(4, 24); g_new(amg);
+            for (long s = 0; s < len; ++s) {
+                std::vector<long> lp; for (size_t q = 0; q < hs.size(); ++q) if (hs[q].alive) lp.push_back((long)q);
+                int w = (int)rng.range(0, 15);
+                if (lp.empty() || w == 0) { g_new(rng.coin(1, 4)); continue; }
+                long h = lp[rng.next() % lp.size()];
+                if (w <= 5) g_set(h, rng.coin());
+                else if (w == 6) g_json(h, rng.range(0, 6));
+                else if (w <= 10) g_mk(rng.coin(1, 8) ? -1 : h);
+                else if (w == 11 && nobj > 0) g_pdel(h);
+                else g_obj();
+            }
+            if (nobj == 0) { std::vector<long> lp; for (size_t q = 0; q < hs.size(); ++q) if (hs[q].alive) lp.push_back((long)q); if (lp.empty()) lp.push_back(g_new(amg)); g_mk(lp[0]); }
+        }
+        // tail: some handles destroyed before the final use of the objects, some objects used / destroyed explicitly
+        for (size_t q = 0; q < hs.size(); ++q) if (hs[q].alive && rng.coin(1, 3)) { if (rng.coin()) g_set((long)q, true); else g_pdel((long)q); }
+        if (rng.coin(1, 3)) g_obj();
+        long nt = emin ? 1 : rng.pick(std::vector<long>{1, 1, 2, 3});
+        std::vector<Q> rhs(n), x0(n);
+        for (auto &v : rhs) v = dyadic(rng);
+        bool zero_x0 = rng.coin(1, 2); for (auto &v : x0) v = zero_x0 ? Q(0) : dyadic(rng, 4);
+        Line l; l << "capi_hist" << nt << A << rhs << x0; for (auto &e : ev) l << e;
+        lines.push_back(l.get());
+    }
+    lines.push_back("capi_hist 1 1 1 1 0 1 1 1 1 0 set 0 solver.tol f 1/2");                    // handle never created
+    lines.push_back("capi_hist 1 1 1 1 0 1 1 1 1 0 new pdel 0 mk s 0 0");                       // destroyed handle
+    lines.push_back("capi_hist 1 1 1 1 0 1 1 1 1 0 new set 0 solver..tol f 1/2");               // empty path segment
+    lines.push_back("capi_hist 1 1 1 1 0 1 1 1 1 0 new json 0 2 solver s x solver.tol f 1/2");  // a file cannot hold a value and an object at one key
+    lines.push_back("capi_hist 1 1 1 1 0 1 1 1 1 0 new set 0 solver.tol f 1/3");                // 1/3 is not a float
+    lines.push_back("capi_hist 1 1 1 1 0 1 1 1 1 0 mk s 0 null use 1");                         // object never created
+}
 #endif
 
 static void generate(Rng &rng, const Opts &o, std::vector<std::string> &lines) {
@@ -774,9 +1358,11 @@ static void generate(Rng &rng, const Opts &o, std::vector<std::string> &lines) {
     long ns = o.cases > 0 ? o.cases : (o.thorough() ? 2000 : 150);
     gen_view(rng, o, lines, nv);
     gen_script(rng, o, lines, ns);
+    gen_params(rng, o, lines, o.cases > 0 ? o.cases : (o.thorough() ? 3000 : 300));
 #else
     long N = o.cases > 0 ? o.cases : (o.thorough() ? 2500 : 160);
     gen_solve(rng, o, lines, N);
+    gen_hist(rng, o, lines, o.cases > 0 ? o.cases : (o.thorough() ? 1500 : 110));
 #endif
 }
 
